@@ -10,7 +10,8 @@ def M(name, checks, what, *edits):
 
 # ---- C02 -------------------------------------------------------------------------------
 M("c02-dstcol-kept-across-lines", ["C02"], "decoder keeps the generated column across lines",
-  ("src/decoder.rs", "        dst_col = 0;\n\n        decode_rmi", "        if false { dst_col = 0; }\n\n        decode_rmi"))
+  ("src/decoder.rs", "    let mut dst_col;\n", "    let mut dst_col = 0;\n"),
+  ("src/decoder.rs", "        dst_col = 0;\n\n        decode_rmi", "        if dst_line == usize::MAX { dst_col = 0; }\n\n        decode_rmi"))
 M("c02-srccol-reset-per-line", ["C02"], "decoder resets the original column on every line",
   ("src/decoder.rs", "        dst_col = 0;\n\n        decode_rmi", "        dst_col = 0;\n        src_col = 0;\n\n        decode_rmi"))
 M("c02-swap-src-line-col", ["C02"], "decoder swaps original line and column deltas",
@@ -80,12 +81,12 @@ M("c04-lookup-before-first", ["C04"], "lookup before the first token returns the
 # ---- C05 -------------------------------------------------------------------------------
 M("c05-unchecked-shl", ["C05", "C11", "C06"], "VLQ decoder uses << instead of checked_shl",
   ("src/vlq.rs", "cur += val.checked_shl(shift).ok_or(Error::VlqOverflow)?;", "cur += val << shift;"))
-M("c05-display-unwrap", ["C05"], "Token Display unwraps the name of out-of-range name ids",
-  ("src/types.rs", "            self.get_name()\n                .map(|x| format!(\" name={x}\"))\n                .unwrap_or_default()", "            if self.raw.name_id != !0 && self.raw.src_id == !0 { format!(\" name={}\", self.get_name().unwrap()) } else { self.get_name()\n                .map(|x| format!(\" name={x}\"))\n                .unwrap_or_default() }"))
+M("c05-display-truncates-name", ["C05"], "Token Display truncates long names at a byte offset",
+  ("src/types.rs", "                .map(|x| format!(\" name={x}\"))", "                .map(|x| format!(\" name={}\", &x[..x.len().min(24)]))"))
 M("c05-prealloc-from-declared", ["C05"], "decoder pre-allocates tokens from a number in the document (ignoreList max)",
   ("src/decoder.rs", "    let allocation_size = mappings.matches(&[',', ';'][..]).count() + 10;", "    let allocation_size = mappings.matches(&[',', ';'][..]).count() + 10 + rsm.ignore_list.as_ref().and_then(|l| l.iter().max().copied()).unwrap_or(0) as usize / 16;"))
-M("c05-set-source-contents-index", ["C05", "C09"], "rewrite indexes contents by new id without bounds check when contents are longer than sources",
-  ("src/types.rs", "                builder\n                    .set_source_contents(raw.src_id, self.get_source_contents(token.get_src_id()));", "                let c = if self.sources_content.len() > self.sources.len() { self.sources_content[token.get_src_id() as usize + 1].as_ref().map(|v| v.source()) } else { self.get_source_contents(token.get_src_id()) };\n                builder.set_source_contents(raw.src_id, c);"))
+M("c05-contents-direct-index", ["C05", "C09"], "rewrite indexes sourcesContent directly (panics when it is shorter than sources)",
+  ("src/types.rs", "                    .set_source_contents(raw.src_id, self.get_source_contents(token.get_src_id()));", "                    .set_source_contents(raw.src_id, self.sources_content[token.get_src_id() as usize].as_ref().map(|v| v.source()));"))
 M("c05-flatten-overflow-again", ["C05", "C03"], "flatten adds the line offset unchecked again",
   ("src/types.rs", "                    token\n                        .get_dst_line()\n                        .checked_add(off_line)\n                        .ok_or_else(overflow)?,", "                    token.get_dst_line() + off_line,"))
 M("c05-hermes-fnmap-negative", ["C05", "C14"], "hermes function map line accumulates in u32 arithmetic",
@@ -148,20 +149,20 @@ M("c10-displacement-next", ["C10"], "column displacement ignores the line when l
   ("src/types.rs", "                token.dst_col = (token.dst_col as i32 + col_diff) as u32;", "                token.dst_col = (token.dst_col as i32 + if line_diff.abs() >= 2 { 0 } else { col_diff }) as u32;"))
 M("c10-eol-ignored", ["C10"], "range end ignores end of line",
   ("src/types.rs", "                let end = std::cmp::min(next_start, (start.0, u32::MAX));", "                let end = next_start;"))
-M("c10-break-gt", ["C10"], ">= -> > in the 'no more originals' break",
-  ("src/types.rs", "                if original_range.end >= adjustment_range.end {", "                if original_range.end > adjustment_range.end {"))
+# (c10-break-gt, ">= -> > in the 'no more originals' break", was removed: it is behaviourally equivalent —
+#  with equal ends the skip loop of the next adjustment range advances the original range anyway)
 M("c10-skip-le", ["C10"], "skip loop uses < instead of <=",
   ("src/types.rs", "            while original_range.end <= adjustment_range.start {", "            while original_range.end < adjustment_range.start {"))
 M("c10-range-flag", ["C10"], "adjust_mappings clears the range flag of clipped tokens",
   ("src/types.rs", "                let mut token = RawToken {\n                    dst_line,\n                    dst_col,\n                    ..original_range.value\n                };", "                let mut token = RawToken {\n                    dst_line,\n                    dst_col,\n                    ..original_range.value\n                };\n                if (dst_line, dst_col) != original_range.start { token.is_range = false; }"))
 
 # ---- C12 -------------------------------------------------------------------------------
-M("c12-pastheader-offset", ["C12"], "PastHeader arm copies from offset+1 (drops a byte when the newline is not at a chunk end)",
-  ("src/decoder.rs", "                        let rem = read - offset;\n                        buf[..rem].copy_from_slice(&local_buf[offset..read]);\n                        return Ok(rem);", "                        let off2 = if offset + 1 < read && local_buf[offset] == b' ' { offset + 1 } else { offset };\n                        let rem = read - off2;\n                        buf[..rem].copy_from_slice(&local_buf[off2..read]);\n                        return Ok(rem);"))
+M("c12-pastheader-offset", ["C12"], "PastHeader arm drops the first body byte when >= 200 bytes follow the newline in the same read",
+  ("src/decoder.rs", "                        let rem = read - offset;\n                        buf[..rem].copy_from_slice(&local_buf[offset..read]);\n                        return Ok(rem);", "                        let off2 = if read - offset >= 200 { offset + 1 } else { offset };\n                        let rem = read - off2;\n                        buf[..rem].copy_from_slice(&local_buf[off2..read]);\n                        return Ok(rem);"))
 M("c12-awaiting-newline-forgotten", ["C12"], "AwaitingNewline state forgotten across a read boundary",
   ("src/decoder.rs", "        loop {\n            let read = self.r.read(local_buf)?;\n            if read == 0 {\n                return Ok(0);\n            }", "        loop {\n            let read = self.r.read(local_buf)?;\n            if read == 0 {\n                return Ok(0);\n            }\n            if self.header_state == HeaderState::AwaitingNewline {\n                self.header_state = HeaderState::Junk;\n            }"))
-M("c12-reader-accepts-bare-cr", ["C12"], "reader accepts a bare \\r as header terminator",
-  ("src/decoder.rs", "                        if byte == b'\\n' {\n                            HeaderState::PastHeader\n                        } else {\n                            fail!(io::Error::new(", "                        if byte == b'\\n' || byte == b'{' {\n                            HeaderState::PastHeader\n                        } else {\n                            fail!(io::Error::new("))
+M("c12-reader-accepts-bare-cr", ["C12"], "reader accepts a blank after a bare \\r as header terminator",
+  ("src/decoder.rs", "                        if byte == b'\\n' {\n                            HeaderState::PastHeader\n                        } else {\n                            fail!(io::Error::new(", "                        if byte == b'\\n' || byte == b' ' || byte == b'\\t' {\n                            HeaderState::PastHeader\n                        } else {\n                            fail!(io::Error::new("))
 M("c12-junk-set-differs", ["C12"], "slice path treats '>' as junk start too",
   ("src/decoder.rs", "    if slice.is_empty() || !is_junk_json(slice[0]) {", "    if slice.is_empty() || !(is_junk_json(slice[0]) || slice[0] == b'>') {"))
 M("c12-is-sourcemap-reader-no-strip", ["C12", "C18"], "is_sourcemap(reader) requires version for index maps",
@@ -241,15 +242,15 @@ M("c19-one-dotdot-too-few", ["C19"], "one '..' too few when the target is shallo
   ("src/utils.rs", "let mut rel_list: Vec<_> = repeat(\"..\").take(base_path.len() - prefix).collect();", "let mut rel_list: Vec<_> = repeat(\"..\").take((base_path.len() - prefix).min(3)).collect();"))
 M("c19-prefix-on-strings", ["C19"], "common prefix stops at the first component that is a prefix string",
   ("src/utils.rs", "            if seq.get(idx) != Some(&comp) {\n                break;\n            }", "            if seq.get(idx).map(|s| s.starts_with(comp) && (idx < 3 || *s == comp)) != Some(true) {\n                break;\n            }"))
-M("c19-base-not-popped", ["C19"], "base file not popped for single-component relative bases",
-  ("src/utils.rs", "    base_path.pop();\n\n    let mut items = vec![", "    if base_path.len() > 1 || base.starts_with('/') || base.starts_with('\\\\') { base_path.pop(); } else { base_path.clear(); }\n\n    let mut items = vec!["))
+M("c19-base-not-popped", ["C19"], "base file not popped when the base has exactly 5 components",
+  ("src/utils.rs", "    base_path.pop();\n\n    let mut items = vec![", "    if base_path.len() != 5 { base_path.pop(); }\n\n    let mut items = vec!["))
 
 # ---- C20 -------------------------------------------------------------------------------
 M("c20-id-gt", ["C20"], "id > count instead of >=",
   ("src/ram_bundle.rs", "        if id >= self.module_count {\n            return Err(Error::InvalidRamBundleIndex);\n        }\n\n        let entry_offset =", "        if id > self.module_count {\n            return Err(Error::InvalidRamBundleIndex);\n        }\n\n        let entry_offset ="))
 M("c20-keep-nul", ["C20"], "trailing NUL kept for modules of length > 32",
   ("src/ram_bundle.rs", "        let module_length = (module_entry.length - 1) as usize;", "        let module_length = if module_entry.length > 32 { module_entry.length as usize } else { (module_entry.length - 1) as usize };"))
-M("c20-iter-stops-at-hole", ["C20"], "iterator stops at the second empty slot",
-  ("src/ram_bundle.rs", "                Ok(None) => continue,", "                Ok(None) => { if next_id > 3 { return None; } continue },"))
+M("c20-iter-stops-at-hole", ["C20"], "iterator stops at an empty slot after id 3",
+  ("src/ram_bundle.rs", "            match self.ram_bundle.get_module(next_id) {\n                Ok(None) => continue,", "            match self.ram_bundle.get_module(next_id) {\n                Ok(None) => { if next_id > 3 { return None; } continue },"))
 M("c20-magic-loose", ["C20"], "is_ram_bundle_slice accepts a magic with the low byte off",
   ("src/ram_bundle.rs", "        self.magic == RAM_BUNDLE_MAGIC", "        self.magic | 1 == RAM_BUNDLE_MAGIC | 1"))
